@@ -182,7 +182,7 @@ func (d *Decoder) readTypedMap() (interface{}, error) {
 	if mType.Kind() == reflect.Map {
 		mValue = reflect.MakeMap(mType)
 	} else {
-		mValue = reflect.New(mType)
+		mValue = reflect.New(mType).Elem()
 	}
 
 	mPtrValue := PackPtr(mValue)
